@@ -322,7 +322,7 @@ MAGS = [("4.95", "0.1", 41), ("5.95", "0.1", 12), ("2.5", "0.1", 30), ("5.0", "0
 def run(ctx):
     install(ctx)
     thorough = ctx.tier == "thorough"
-    n = (100000 if thorough else 2400) // ctx.nshards
+    n = (500000 if thorough else 2400) // ctx.nshards
     for j in range(n):
         r = ctx.rng("c03", j)
         mag = MAGS[int(r.integers(0, len(MAGS)))]
